@@ -92,6 +92,29 @@ def derived_variant(u, rnd):
     return out
 
 
+def rename_variant(u, rnd):
+    """the TARGET of every rename becomes a case variant of its own SOURCE (rename Me_1 to me_1): the old name disappears and
+    a name differing from it only in case takes its place (seeded change C29b: a pass-through projection "Me_1" AS "me_1"
+    simplified away)"""
+    out = {}
+
+    def walk(x):
+        if isinstance(x, dict):
+            if x.get('k') == 'clause' and x.get('op') == 'rename':
+                for a, b in x['items']:
+                    if '#' not in a and '#' not in b and b not in out and a not in out:
+                        out[b] = case_variant(a, rnd.randrange(1, 4))
+            for v in x.values():
+                walk(v)
+        elif isinstance(x, list):
+            for v in x:
+                walk(v)
+    walk(u['term'])
+    if len(set(out.values())) < len(out):
+        return None
+    return out or None
+
+
 def category(u):
     """where two names of the unit collide when letter case is ignored"""
     env = u['env']
@@ -125,7 +148,7 @@ def category(u):
 def cased(units, rnd):
     out = []
     for u in units:
-        for tag, m in (('case', mapping(u, rnd)), ('own', own_variant(u, rnd)), ('made', derived_variant(u, rnd))):
+        for tag, m in (('case', mapping(u, rnd)), ('own', own_variant(u, rnd)), ('made', derived_variant(u, rnd)), ('ren', rename_variant(u, rnd))):
             if not m or all(k == v for k, v in m.items()):
                 continue
             v = dict(u)
@@ -134,12 +157,46 @@ def cased(units, rnd):
             v['id'] = '%s.%s' % (u['id'], tag)
             v['names'] = sorted(set(m.values()))
             v['collision'] = category(v)
+            if tag == 'ren':
+                # only the dedicated rename units (the source name never comes back): no two components of any intermediate or
+                # final dataset collide, which is what tells these units from the known finding `created component collides`
+                if not u['id'].startswith('ren'):
+                    continue
+                v['collision'] = 'none-renamed-to-variant-of-source'
             out.append(v)
     return out
 
 
 def keyfn(u):
     return 'collision=%s | %s names %s' % (u.get('collision'), termgen.shape(u['term']), ','.join(u.get('names', [])))
+
+
+def rename_units(rnd, n):
+    """renames alone, before a dataset-dataset operator and inside a chain (for the `ren` variant)"""
+    from harness import gen
+    from harness.gen import var
+    out = []
+    for i in range(n):
+        ids = [('Id_1', 'Integer'), ('Id_2', 'String')][:rnd.choice([1, 2])]
+        meas = [('Me_1', 'M', rnd.choice(['Integer', 'Number'])), ('Me_2', 'M', 'Integer')][:rnd.choice([1, 2])]
+        env = {'DS_1': gen.shuffled(rnd, gen.dataset(rnd, ids, meas, rnd.choice([1, 3, 5]), keyspace=3))}
+        what = rnd.choice(['measure', 'identifier', 'both'])
+        items = []
+        if what in ('measure', 'both'):
+            items.append(['Me_1', 'R_1'])
+        if what in ('identifier', 'both'):
+            items.append([ids[-1][0], 'R_2'])
+        t = {'k': 'clause', 'op': 'rename', 'ds': var('DS_1'), 'items': items}
+        k = rnd.choice(['alone', 'binary', 'calc'])
+        if k == 'binary' and what == 'identifier':
+            # the other operand declares the renamed identifier under its new name
+            nid = [(a if a != ids[-1][0] else 'R_2', b) for a, b in ids]
+            env['DS_2'] = gen.shuffled(rnd, gen.dataset(rnd, nid, meas, rnd.choice([1, 3, 5]), keyspace=3))
+            t = {'k': 'bin', 'op': rnd.choice(['+', '-', '*']), 'l': t, 'r': var('DS_2')}
+        elif k == 'calc' and what != 'identifier':
+            t = {'k': 'clause', 'op': 'calc', 'ds': t, 'items': [{'name': 'X1', 'role': 'M', 'expr': {'k': 'bin', 'op': '+', 'l': var('R_1'), 'r': {'k': 'const', 'v': [1, 1]}}}]}
+        out.append({'id': 'ren%d' % i, 'env': env, 'term': t, 'cc': True})
+    return out
 
 
 def main(chk):
@@ -152,7 +209,7 @@ def main(chk):
     nested = sets[:n // 4] + [u for u in pool if u['term']['k'] != 'set'][:n // 5]
     for j, u in enumerate(nested):
         u['id'] = 'nest%d' % j
-    base = variants.mixed_units(rnd, n) + termgen.random_join_units(rnd, n // 6) + termgen.random_analytic_units(rnd, n // 8) + nested
+    base = variants.mixed_units(rnd, n) + termgen.random_join_units(rnd, n // 6) + termgen.random_analytic_units(rnd, n // 8) + nested + rename_units(rnd, n // 8)
     # only units the engine gets right with their ordinary names are judged here (other failures belong to C01-C06)
     from harness import report
     side = report.Check(chk.pid, chk.tier, chk.seed, LEVEL)
@@ -166,6 +223,6 @@ def main(chk):
     b1.binding_demo(chk, lu, lo, c01.corrupt)
     chk.cov['rule'] = ('names are plain strings in the specification, so Me_1 / me_1 / ME_1 are three components by construction: every random unit of the modelled families (element-wise, clauses, '
                        'aggregations, set operators, temporal, joins, analytic) is rewritten so that its datasets, identifiers, measures and attributes are case variants of ONE base name per kind '
-                       '(DS_1 / ds_1, Id_1 / id_1 / ID_1, Me_1 / me_1 / ME_1 ...), run, and the observation validated by TLC (VTLOperators_Trace): each component keeps its own values and appears '
+                       '(DS_1 / ds_1, Id_1 / id_1 / ID_1, Me_1 / me_1 / ME_1 ...), or so that names created by calc / aggr are variants of existing components, or the target of a rename a variant of its source, run, and the observation validated by TLC (VTLOperators_Trace): each component keeps its own values and appears '
                        'exactly where the spec says. distinct = distinct terms')
     chk.assumptions += ['only generated names (Id_n, Me_n, At_n, DS_n and names created by calc / rename / aggr) are varied; the engine-made names bool_var, int_var ... are left alone']
